@@ -60,7 +60,11 @@ CLAIM = dict(
          "model resolve sites in sync and async mode; Symbols.ref failures == model prediction; get_template/select_template "
          "literals of the generated code are yielded; renders with a recording Context/join_path/loader (sync+async, several "
          "data assignments, extends/include/import chains): every context lookup is reported for the template whose code "
-         "performed it, the root prologue names are always fetched, every load request is reported for the requesting template.",
+         "performed it (lookups made by runtime plumbing - Context.get/__getitem__/get_exported, pass_context globals - are "
+         "attributed to the template whose context they read and judged the same way), the root prologue names are always "
+         "fetched, every load request is reported for the requesting template; module probe: Template.module, "
+         "make_module(vars), make_module_async, import/from-import/include with and without context of templates exporting "
+         "public and private top-level names read nothing outside find_undeclared_variables + globals.",
     note="Trusted: Lean kernel; hand model Model/Scope.lean (tied by exact correspondence); the runtime model reads the "
          "context only in frame prologues (compiler.enter_frame) - other runtime paths are covered end-to-end only; extensions "
          "and pass_context callables are out of scope.",
@@ -559,7 +563,12 @@ def run(ctx, res):
             stats["features"][ft] = stats["features"].get(ft, 0) + 1
     reals, reqs = [], []
     for src in cases:
-        r = analyse_real(jinja2, env, src)
+        try:
+            r = analyse_real(jinja2, env, src)
+        except core.HarnessError:
+            raise
+        except Exception as e:  # noqa  -- the implementation failed in an unforeseen way on this template: an observation
+            r = ("reject", "unexpected-" + type(e).__name__ + ":" + str(e)[:40])
         if isinstance(r, tuple):
             kind, why = r
             key = why.split(":")[0] if kind == "reject" else why
@@ -577,6 +586,9 @@ def run(ctx, res):
             r["async_sites"] = ["<async compile failed: %s>" % type(e).__name__]
         reals.append(r)
         reqs.append(r["req"])
+    if not reals:
+        raise core.HarnessError("C32: none of the generated templates could be parsed/introspected/compiled: "
+                                + str(stats["rejected"])[:300])
     replies = core.driver_batch(reqs)
     evaluations, nontrivial, agree = 0, set(), 0
     shadow = 0
@@ -608,15 +620,18 @@ def run(ctx, res):
         if set(model["runs"][0]) != set(model["runs"][1]):
             shadow += 1
     e2e = run_e2e(ctx, res, jinja2, stats)
+    modp = run_module_probe(ctx, res, jinja2)
     res.coverage.update({
-        "evaluations": evaluations + e2e["renders"],
-        "distinct_nontrivial": len(nontrivial) + e2e["distinct"],
+        "evaluations": evaluations + e2e["renders"] + modp["operations"],
+        "distinct_nontrivial": len(nontrivial) + e2e["distinct"] + modp["distinct"],
+        "module_probe": modp,
         "rule": "random templates over 5 ordinary names + loop/self/super/caller/varargs/kwargs + globals, built from output, set "
                 "(tuple, ns.x), set-block, if/elif/else, for (tuple targets, filter, else, recursive), with, macro (defaults), call, "
                 "filter, block (scoped), include/import/from-import/extends (constant, list/tuple, dynamic), autoescape; the real parse "
                 "tree is sent to the Lean model; non-trivial = at least one name reported and at least one occurring name not reported "
                 "(bound by the template); e2e: template sets in a DictLoader rendered sync+async on random data with recording "
-                "Context/join_path/loader",
+                "Context/join_path/loader; module probe: leaf templates with public/private top-level set and macro names through "
+                "Template.module, make_module(vars), make_module_async, import / from-import / include with and without context",
         "samples": [reals[i]["src"] for i in range(len(FIXED), min(len(reals), len(FIXED) + 4))],
         "static_templates": evaluations, "static_agree": agree, "runs_differ_between_oracles": shadow,
         "rejected_by_compiler": stats["rejected"], "out_of_model": stats["oom"], "feature_counts": stats["features"],
@@ -673,12 +688,26 @@ def make_recording(jinja2, log):
 
     class RecContext(Context):
         def resolve_or_missing(self, key):
+            # who performed the lookup: generated template code (its module globals carry `name`, `root`, `blocks`), or runtime
+            # plumbing (Context.get/__getitem__/resolve/get_exported/…, an extension's pass_context global): such a lookup is
+            # attributed to the template whose context it is made on and judged like any other
             try:
-                caller = sys._getframe(1).f_globals
-                who = caller.get("name") if "root" in caller and "blocks" in caller else None
+                fr = sys._getframe(1)
+                g = fr.f_globals
+                if "root" in g and "blocks" in g and "debug_info" in g:
+                    who, via = g.get("name"), "code"
+                else:
+                    fn, depth = fr.f_code.co_name, 0
+                    while fr is not None and depth < 4 and fr.f_code.co_name in ("resolve", "get", "__getitem__", "__contains__", "<dictcomp>"):
+                        fr = fr.f_back
+                        depth += 1
+                        if fr is not None:
+                            fn = fr.f_code.co_name
+                    who, via = self.name, "plumbing:" + str(fn)
             except Exception:  # noqa
-                who = None
-            log["lookups"].append((who, self.name, key if isinstance(key, str) else "<%s>" % type(key).__name__))
+                who, via = self.name, "plumbing:?"
+            who = who if isinstance(who, str) else "<unnamed>"
+            log["lookups"].append((who, str(self.name), key if isinstance(key, str) else "<%s>" % type(key).__name__, via))
             return super().resolve_or_missing(key)
 
     class RecLoader(jinja2.DictLoader):
@@ -825,6 +854,7 @@ def run_e2e(ctx, res, jinja2, stats):
     lookups_total = requests_total = 0
     outcome = {}
     messages = {}
+    plumbing = {}
     unattributed = 0
     lower_checked = 0
     from jinja2 import nodes
@@ -868,10 +898,15 @@ def run_e2e(ctx, res, jinja2, stats):
             env.context_class = RecContext
             globs = set(env.globals)
             reported, referenced = {}, {}
-            for nm, src in srcs.items():
-                tree = env.parse(src)
-                reported[nm] = set(meta.find_undeclared_variables(tree))
-                referenced[nm] = list(meta.find_referenced_templates(tree))
+            try:
+                for nm, src in srcs.items():
+                    tree = env.parse(src)
+                    reported[nm] = set(meta.find_undeclared_variables(tree))
+                    referenced[nm] = list(meta.find_referenced_templates(tree))
+            except Exception as e:  # noqa  -- the implementation refuses a template the probe environment accepted: observation
+                k = "introspection:" + type(e).__name__
+                messages[k] = messages.get(k, 0) + 1
+                continue
             union = set().union(*reported.values())
             for di in range(ndata):
                 drng = ctx.rng("e2e-data", si, di)
@@ -895,25 +930,29 @@ def run_e2e(ctx, res, jinja2, stats):
                 renders += 1
                 lookups_total += len(log["lookups"])
                 requests_total += len(log["requests"])
-                distinct.add((si, is_async, di, tuple(sorted(set(log["lookups"]))), tuple(log["requests"])))
+                distinct.add((si, is_async, di, tuple(sorted(set(log["lookups"]), key=repr)), tuple(map(repr, log["requests"]))))
                 replay = {"templates": srcs, "data_seed": [si, di], "data_keys": sorted(data), "async": is_async, "outcome": oc}
-                for who, ctxname, key in set(log["lookups"]):
+                for who, ctxname, key, via in sorted(set(log["lookups"]), key=repr):
                     if who in reported:
                         allowed = reported[who] | globs
                     else:
                         unattributed += 1
                         allowed = union | globs
+                    if via != "code":
+                        plumbing[via] = plumbing.get(via, 0) + 1
                     if key not in allowed:
-                        res.violate("C32:e2e:lookup-unreported",
-                                    f"render ({'async' if is_async else 'sync'}) fetched {key!r} from the context in code of template "
-                                    f"{who!r} (context of {ctxname!r}); find_undeclared_variables reports {sorted(reported.get(who, union))}",
-                                    dict(replay, lookup=[who, ctxname, key]))
+                        res.violate("C32:e2e:lookup-unreported" + ("" if via == "code" else ":plumbing"),
+                                    f"render ({'async' if is_async else 'sync'}) fetched {key!r} from the context "
+                                    + (f"in code of template {who!r}" if via == "code" else f"of template {who!r} in runtime {via}")
+                                    + f" (context of {ctxname!r}); find_undeclared_variables({who!r}) reports "
+                                    f"{sorted(reported.get(who, union))}", dict(replay, lookup=[who, ctxname, key, via]))
                 # ties the runtime model: (lower bound, theorem root_lookups_always) the root function of "main" always runs its
                 # prologue, so the model's root-frame names must have been fetched; (upper bound) what the code of a template
                 # fetched are resolve sites of the model
                 looked = {}
-                for who, _c, key in log["lookups"]:
-                    looked.setdefault(who, set()).add(key)
+                for who, _c, key, via in log["lookups"]:
+                    if via == "code":
+                        looked.setdefault(who, set()).add(key)
                 m = models.get((si, "main"))
                 if m is not None and oc != "RecursionError":
                     lower_checked += 1
@@ -945,7 +984,120 @@ def run_e2e(ctx, res, jinja2, stats):
     return {"i18n_alias_boundary_case": boundary, "template_sets": nsets, "renders": renders, "distinct": len(distinct), "context_lookups": lookups_total,
             "load_requests": requests_total, "outcomes": outcome, "unattributed_lookups": unattributed,
             "root_prologue_lower_bound_checked": lower_checked,
+            "plumbing_lookups_by_runtime_function": plumbing,
             "top_render_errors": dict(sorted(messages.items(), key=lambda kv: -kv[1])[:8])}
+
+
+# ------------------------------------------------------------------------------------------------
+# L-unit: building a TemplateModule must not read the context beyond what is reported
+# ------------------------------------------------------------------------------------------------
+
+MODULE_OPS = ["module", "make_module", "import", "from-import", "include-nocontext", "import-context", "include-context"]
+
+
+def module_case(rng):
+    """a leaf library template exporting public/private top-level names + the templates that use it"""
+    g = Gen(rng, e2e=True, extends_ok=False, tnames=[])
+    pub = []
+    for cand in rng.sample(ORD[:4] + ["pub", "_priv", "other"], k=rng.randrange(1, 4)):
+        pub.append(cand)
+    head = "".join("{%% set %s = %s %%}" % (p, g.expr(1)) for p in pub)
+    head += "{% macro mac(a) %}{{ a }}{{ " + g.name(0) + " }}{% endmacro %}"
+    if rng.random() < 0.5:
+        head += "{% macro _hidden() %}{{ " + g.name(0) + " }}{% endmacro %}"
+    lib = head + g.body(rng.choice([1, 1, 2]), top=True, n=rng.randrange(0, 4))
+    first = pub[0]
+    return {
+        "lib": lib,
+        "import": "{% import 'lib' as L %}{{ L.mac(1) }}{{ L." + first + " }}",
+        "from-import": "{% from 'lib' import mac, " + first + " as q %}{{ mac(2) }}{{ q }}",
+        "include-nocontext": "{{ " + g.name(0) + " }}{% include 'lib' without context %}",
+        "import-context": "{% import 'lib' as L with context %}{{ L.mac(1) }}",
+        "include-context": "{% set " + first + " = 5 %}{% include 'lib' %}",
+    }
+
+
+def module_op(env, op, is_async, data):
+    """perform one module-building operation; implementation exceptions are part of the observation"""
+    try:
+        if op == "module":
+            t = env.get_template("lib")
+            if is_async:
+                asyncio.run(t.make_module_async())
+            else:
+                t.module  # noqa
+        elif op == "make_module":
+            t = env.get_template("lib")
+            if is_async:
+                asyncio.run(t.make_module_async(dict(data)))
+            else:
+                t.make_module(dict(data))
+        else:
+            t = env.get_template(op)
+            if is_async:
+                asyncio.run(t.render_async(data))
+            else:
+                t.render(data)
+        return "ok"
+    except RecursionError:
+        return "RecursionError"
+    except Exception as e:  # noqa
+        return type(e).__name__
+
+
+def judge_module(res, log, reported, globs, replay_case, plumbing):
+    bad = 0
+    for who, ctxname, key, via in sorted(set(log["lookups"]), key=repr):
+        if via != "code":
+            plumbing[via] = plumbing.get(via, 0) + 1
+        allowed = (reported[who] if who in reported else set().union(*reported.values())) | globs
+        if key not in allowed:
+            bad += 1
+            res.violate("C32:module:lookup-unreported" + ("" if via == "code" else ":plumbing"),
+                        f"{replay_case['op']} ({'async' if replay_case['async'] else 'sync'}) of a template exporting top-level names "
+                        f"fetched {key!r} from the context of {ctxname!r} "
+                        + (f"in code of {who!r}" if via == "code" else f"in runtime {via}")
+                        + f"; find_undeclared_variables({who!r}) reports {sorted(reported.get(who, []))}",
+                        dict(replay_case, lookup=[who, ctxname, key, via]))
+    return bad
+
+
+def run_module_probe(ctx, res, jinja2):
+    from jinja2 import meta
+    rng = ctx.rng("module")
+    ncases = ctx.pick(60, 600)
+    operations, distinct, outcomes, plumbing, lookups = 0, set(), {}, {}, 0
+    skipped = 0
+    for ci in range(ncases):
+        srcs = module_case(rng)
+        try:
+            probe = jinja2.Environment()
+            reported = {nm: set(meta.find_undeclared_variables(probe.parse(src))) for nm, src in srcs.items()}
+            for src in srcs.values():
+                probe.compile(src, raw=True)
+        except Exception:  # noqa  -- rejected by the implementation: nothing to observe
+            skipped += 1
+            continue
+        for is_async in (False, True):
+            log = {"lookups": [], "sources": [], "requests": []}
+            RecContext, RecLoader, RecEnv = make_recording(jinja2, log)
+            # soft undefined: the module body should run to its end, where the exported names are collected
+            env = RecEnv(loader=RecLoader(srcs), enable_async=is_async, undefined=make_undefined(jinja2))
+            env.context_class = RecContext
+            globs = set(env.globals)
+            data = make_data(jinja2, ctx.rng("module-data", ci))
+            for op in MODULE_OPS:
+                for k in log:
+                    log[k].clear()
+                oc = module_op(env, op, is_async, data)
+                operations += 1
+                outcomes[oc] = outcomes.get(oc, 0) + 1
+                lookups += len(log["lookups"])
+                distinct.add((ci, is_async, op, tuple(sorted(set(log["lookups"]), key=repr))))
+                judge_module(res, log, reported, globs,
+                             {"templates": srcs, "op": op, "async": is_async, "module_data_seed": ci, "outcome": oc}, plumbing)
+    return {"cases": ncases, "skipped": skipped, "operations": operations, "distinct": len(distinct), "outcomes": outcomes,
+            "context_lookups": lookups, "plumbing_lookups_by_runtime_function": plumbing, "ops": MODULE_OPS}
 
 
 def run_extension_boundary(res, jinja2):
@@ -962,7 +1114,7 @@ def run_extension_boundary(res, jinja2):
         out = env.from_string(src).render(gettext=lambda s: s.upper())
     except Exception as e:  # noqa
         out = "raised:" + type(e).__name__
-    fetched = {k for _w, _c, k in log["lookups"]}
+    fetched = {e[2] for e in log["lookups"]}
     missing = sorted(fetched - reported - set(env.globals))
     if missing:
         res.violate("C32:e2e:i18n-underscore-alias:gettext",
@@ -985,6 +1137,14 @@ def replay(ctx, case):
         out["referenced"] = list(meta.find_referenced_templates(tree))
         out["code_sites"] = sorted(code_sites(env.compile(c["src"], raw=True))[0])
         return out
+    if "templates" in c and "op" in c:
+        log = {"lookups": [], "sources": [], "requests": []}
+        RecContext, RecLoader, RecEnv = make_recording(jinja2, log)
+        env = RecEnv(loader=RecLoader(c["templates"]), enable_async=c["async"], undefined=make_undefined(jinja2))
+        env.context_class = RecContext
+        oc = module_op(env, c["op"], c["async"], make_data(jinja2, ctx.rng("module-data", c["module_data_seed"])))
+        return {"outcome": oc, "lookups": sorted(set(map(repr, log["lookups"]))),
+                "reported": {n: sorted(meta.find_undeclared_variables(env.parse(s))) for n, s in c["templates"].items()}}
     if "templates" in c:
         log = {"lookups": [], "sources": [], "requests": []}
         RecContext, RecLoader, RecEnv = make_recording(jinja2, log)
@@ -998,7 +1158,7 @@ def replay(ctx, case):
             oc = "ok"
         except Exception as e:  # noqa
             oc = type(e).__name__
-        out = {"outcome": oc, "lookups": sorted(set(map(str, log["lookups"]))), "requests": log["requests"],
+        out = {"outcome": oc, "lookups": sorted(set(map(repr, log["lookups"]))), "requests": log["requests"],
                "reported": {n: sorted(meta.find_undeclared_variables(env.parse(s))) for n, s in c["templates"].items()},
                "referenced": {n: list(meta.find_referenced_templates(env.parse(s))) for n, s in c["templates"].items()}}
     return out
